@@ -239,7 +239,9 @@ Section Node.
     | EStop =>
         (mkS (s_now s) (s_chain s) [] 0 [] (s_grp s) (s_pending s) false, [])
     | ERestart sync =>
-        let s0 := mkS (s_now s) (s_chain s) [] 0 [] (s_grp s) None true in
+        (* the restarted process loads the latest group and share from disk *)
+        let g := match s_pending s with Some (_, g') => g' | None => s_grp s end in
+        let s0 := mkS (s_now s) (s_chain s) [] 0 [] g None true in
         let nr := fst (next_round (s_now s) (c_period C) (c_genesis C)) in
         do_sync s0 nr sync
     | ETransition target g =>
